@@ -154,17 +154,29 @@ class Ctx:
                 for nm in m.group(1).split():
                     if nm in allv and allv[nm][:-2] + '.vo' not in deps: deps.append(allv[nm][:-2] + '.vo')
         ok, built, log = self.coq_make(deps, timeout=timeout)
+        # the statement files are compiled as READERS of the shared .vo files (shared lock: never while another check's
+        # thorough tier is in the middle of deleting and rebuilding its own files, which it does under the exclusive lock)
+        def start(pf):
+            return subprocess.Popen("flock -s %s/.coqlock sh -c 'ulimit -v 16000000; timeout %d coqc -R . SV %s'" % (BUILD, timeout, pf), shell=True, cwd=COQ,
+                                    stdout=subprocess.PIPE, stderr=subprocess.STDOUT, text=True)
         procs = []
         for pf in props_files:
             if ok:
-                procs.append((pf, subprocess.Popen('ulimit -v 16000000; timeout %d coqc -R . SV %s' % (timeout, pf), shell=True, cwd=COQ,
-                                                   stdout=subprocess.PIPE, stderr=subprocess.STDOUT, text=True)))
+                procs.append((pf, start(pf)))
             else:
                 self.broken.append(('coq:' + pf, first_error(log)))
+        results = []
         for pf, pr in procs:
-            out = pr.communicate()[0]
+            out = pr.communicate()[0]; rc = pr.returncode
+            if rc != 0 and ('inconsistent assumptions' in out or 'Cannot find a physical path' in out or 'Unable to locate library' in out or 'No such file' in out):
+                # a dependency was rebuilt by a concurrent run between our make and this compile: bring it up to date again, once
+                ok2, _b, _l = self.coq_make(deps, timeout=timeout)
+                if ok2:
+                    pr2 = start(pf); out = pr2.communicate()[0]; rc = pr2.returncode
+            results.append((pf, rc, out))
+        for pf, rc_pf, out in results:
             names = re.findall(r'^Theorem\s+([\w\']+)', open(os.path.join(COQ, pf)).read(), re.M)
-            if pr.returncode == 0:
+            if rc_pf == 0:
                 self.discharged += names
                 for ax in re.findall(r'^([A-Za-z_][\w\.\']*)\s*:', out, re.M):
                     if ax not in ('Axioms', 'Warning', 'File', 'Error', 'Notation', 'Fetching'): self.trusted.add('axiom ' + ax)
@@ -179,7 +191,7 @@ class Ctx:
         return not any(b[0].startswith('coq:') or b[0] == 'forbidden-construct' for b in self.broken)
     def coqchk(self, props_files):
         mods = ' '.join('SV.' + pf[:-2].replace('/', '.') for pf in props_files)
-        rc, out, err = sh('timeout 1500 coqchk -o -silent -R . SV %s' % mods, cwd=COQ, timeout=1600)
+        rc, out, err = sh("flock -s %s/.coqlock sh -c 'timeout 1500 coqchk -o -silent -R . SV %s'" % (BUILD, mods), cwd=COQ, timeout=3600)
         open(self.bdir('coqchk.log'), 'w').write(out + err)
         if rc != 0: self.broken.append(('coqchk', (out + err)[-500:]))
         else:
@@ -190,7 +202,21 @@ class Ctx:
         """Run an extraction file (text) inside outdir so the .ml lands there."""
         os.makedirs(outdir, exist_ok=True)
         p = os.path.join(outdir, name + '.v'); open(p, 'w').write(extract_v_text)
-        rc, out, err = sh('timeout 900 coqc -R %s SV %s' % (COQ, p), cwd=outdir, timeout=960)
+        cmd = "flock -s %s/.coqlock sh -c 'timeout 900 coqc -R %s SV %s'" % (BUILD, COQ, p)
+        rc, out, err = sh(cmd, cwd=outdir, timeout=3000)
+        if rc != 0 and any(k in out + err for k in ('inconsistent assumptions', 'Cannot find a physical path', 'Unable to locate library', 'No such file')):
+            # a module this extraction Requires was rebuilt by a concurrent run: rebuild what it needs and try once more
+            allv = {}
+            for root, ds, fs in os.walk(COQ):
+                for f in fs:
+                    if f.endswith('.v'): allv[f[:-2]] = os.path.relpath(os.path.join(root, f), COQ)
+            need = []
+            for m in re.finditer(r'^Require (?:Import|Export) ([^.]*)\.', extract_v_text, re.M):
+                for nm in m.group(1).split():
+                    if nm in allv: need.append(allv[nm][:-2] + '.vo')
+            if need:
+                self.coq_make(need)
+                rc, out, err = sh(cmd, cwd=outdir, timeout=3000)
         if rc != 0:
             self.log('extraction failed:\n' + (out + err)[-3000:]); return False
         self.trusted.add('Coq extraction to OCaml with ExtrOcamlBasic only (no Extract Constant/Inductive of our own); OCaml 4.13.1')
